@@ -175,7 +175,22 @@ pub fn generate(prop: &str, master: u64, index: u64, thorough: bool, ctx: &mut R
     for i in 0..len {
         let step = match (preset.as_ref(), plan.ord_bulk) {
             (Some(p), _) => p[i].clone(),
-            (None, Some((n, pat))) if i == 0 && !miri => Step::plain(if cfg.world == WorldKind::Key { Op::KBulk { n, pat } } else { Op::OBulk { n, pat } }),
+            (None, Some((n, pat))) if i == 0 && (!miri || n <= 300) => Step::plain(match cfg.world {
+                WorldKind::Key => Op::KBulk { n, pat },
+                WorldKind::Seg => {
+                    // one range for all copies: the whole domain, a single point at either end, or the lower half
+                    let (lo, hi) = (cfg.seg_lo, cfg.seg_hi);
+                    let (a, b) = match pat % 4 {
+                        0 => (lo, hi),
+                        1 => (lo, lo),
+                        2 => (hi, hi),
+                        _ => (lo, lo + (hi - lo) / 2),
+                    };
+                    let exp = if cfg.key_ty == 1 { cfg.t0.clamp(0, 254) + 1 } else { cfg.t0.saturating_add(1) };
+                    Op::SBulk { a, b, n, exp }
+                }
+                _ => Op::OBulk { n, pat },
+            }),
             _ => Step::plain(world.gen(&mut r, ctx, len - i)),
         };
         if !world.legal(&step.op) {
